@@ -223,7 +223,7 @@ def run(ctx):
     while k < limit and not ctx.out_of_time():
         k += 1
         rng = ctx.rng_for('rand', ctx.shard, k)
-        toks = gen.rand_path_tokens(rng, maxseg=rng.randint(1, 4), alpha=rng.choice(('ab.c', 'ab.', 'aB.x')),
+        toks = gen.rand_path_tokens(rng, maxseg=rng.randint(1, 4), alpha=rng.choice(('ab.c', 'ab.', 'aB.x', 'a\xe9.\u0416', 'a.\U0001f600\xff')),
                                     depth=rng.randint(0, 2))
         if gen.ambiguous_adjacency(toks) or not gen.in_fragment_path(toks):
             continue
